@@ -2,8 +2,18 @@ import DryocVerif.Proofs.Poly1305Main
 import DryocVerif.Proofs.Blake2bMain
 import DryocVerif.Proofs.Core
 import DryocVerif.Proofs.Blake2bExtra
+import DryocVerif.Proofs.Blake2bFinalLen
 /-
 C08 — incremental hash / MAC / signing equals the one-shot result for any chunking.
+
+SCOPE NOTE (BLAKE2b / `crypto_generichash_*`).  `generichash_chunks_eq_spec` and `generichash_inc_eq_oneshot` (lines 39
+and 79 of the revision that was reviewed) use ONE length `n` on both sides: the `outlen` given to
+`crypto_generichash_init` and the length of the buffer given to `crypto_generichash_final`.  The Rust does not tie
+the two together: `crypto_generichash_final(state, output)` → `State::finalize` only refuses `output.len() == 0` and
+`> 64`, and copies `buffer[..output.len()]`; the `16..=64` validation happens in `init` only.  So
+`init(_, 64); final(&mut [0u8; 1])` is `Ok` with a 1-byte result (digest lengths 1..15 are reachable this way although
+`crypto_generichash` refuses them), and that byte is the first byte of the 64-byte-PARAMETERISED hash, not BLAKE2b-8.
+The case `m ≠ n` is `generichash_final_any_len` / `generichash_final_err_iff` below.
 -/
 namespace DryocVerif.Properties.C08
 open DryocVerif
@@ -88,6 +98,81 @@ example : ∃ st, generichashInit (some (zeros 16)) 32 none none = .ok st :=
   ⟨_, Proofs.Blake2b.initC_ok compress 32 (some (zeros 16)) none none (by omega)
     (by intro k hk; injection hk with hk; subst hk; exact Nat.le_of_eq List.length_replicate |>.trans (by omega))⟩
 
+/-! ### `crypto_generichash_final` with an output length of its own -/
+
+open DryocVerif.Model.Blake2b in
+/-- **`crypto_generichash_final(state, output)` with `output.len() = m` different from the `outlen = n` given to
+`crypto_generichash_init`.**  For valid init arguments and `1 ≤ m ≤ 64` the call is `Ok` and `output` receives the
+first `m` bytes of the 64-byte serialised final chaining value of the `n`-PARAMETERISED BLAKE2b
+(`Proofs.Blake2b.fullState n …`; RFC 7693 outputs its first `n` bytes: `hashSP n … = (fullState n …).take n`, by
+definition).  The parameter block carries the INIT length; the output is only truncated (or, for `m > n`, EXTENDED
+with chaining-value bytes BLAKE2b never outputs) to `output.len()`. -/
+theorem generichash_final_any_len (n m : Nat) (key : Bytes) (salt personal : Option Bytes) (cs : List Bytes)
+    (ho : 16 ≤ n ∧ n ≤ 64) (hm : 1 ≤ m ∧ m ≤ 64)
+    (hk : key = [] ∨ (16 ≤ key.length ∧ key.length ≤ 64))
+    (hs : ∀ s, salt = some s → s.length = 16) (hp : ∀ s, personal = some s → s.length = 16)
+    (hlen : cs.flatten.length + 128 < 2^128) :
+    ∃ st, generichashInit (Proofs.Blake2b.keyOpt key) n salt personal = .ok st ∧
+      generichashFinal (cs.foldl generichashUpdate st) m =
+        .ok ((Proofs.Blake2b.fullState n key (salt.getD []) (personal.getD []) cs.flatten).take m) :=
+  Proofs.Blake2b.generichash_final_any_len n m key salt personal cs ho hm hk hs hp hlen
+
+open DryocVerif.Model.Blake2b in
+/-- for `m ≤ n`: a truncation of the `n`-byte digest -/
+theorem generichash_final_shorter (n m : Nat) (key : Bytes) (salt personal : Option Bytes) (cs : List Bytes)
+    (ho : 16 ≤ n ∧ n ≤ 64) (hm : 1 ≤ m ∧ m ≤ n)
+    (hk : key = [] ∨ (16 ≤ key.length ∧ key.length ≤ 64))
+    (hs : ∀ s, salt = some s → s.length = 16) (hp : ∀ s, personal = some s → s.length = 16)
+    (hlen : cs.flatten.length + 128 < 2^128) :
+    ∃ st, generichashInit (Proofs.Blake2b.keyOpt key) n salt personal = .ok st ∧
+      generichashFinal (cs.foldl generichashUpdate st) m =
+        .ok ((Spec.Blake2b.hashSP n key (salt.getD []) (personal.getD []) cs.flatten).take m) :=
+  Proofs.Blake2b.generichash_final_shorter n m key salt personal cs ho hm hk hs hp hlen
+
+open DryocVerif.Model.Blake2b in
+/-- for `n ≤ m ≤ 64`: an `m`-byte string that STARTS with the `n`-byte digest -/
+theorem generichash_final_longer (n m : Nat) (key : Bytes) (salt personal : Option Bytes) (cs : List Bytes)
+    (ho : 16 ≤ n ∧ n ≤ 64) (hm : n ≤ m ∧ m ≤ 64)
+    (hk : key = [] ∨ (16 ≤ key.length ∧ key.length ≤ 64))
+    (hs : ∀ s, salt = some s → s.length = 16) (hp : ∀ s, personal = some s → s.length = 16)
+    (hlen : cs.flatten.length + 128 < 2^128) :
+    ∃ st d, generichashInit (Proofs.Blake2b.keyOpt key) n salt personal = .ok st ∧
+      generichashFinal (cs.foldl generichashUpdate st) m = .ok d ∧ d.length = m ∧
+      d.take n = Spec.Blake2b.hashSP n key (salt.getD []) (personal.getD []) cs.flatten :=
+  Proofs.Blake2b.generichash_final_longer n m key salt personal cs ho hm hk hs hp hlen
+
+open DryocVerif.Model.Blake2b in
+/-- **`crypto_generichash_final` answers `Err` iff `output.len() = 0 ∨ output.len() > 64`** — for every state that came
+out of a successful `crypto_generichash_init` (whatever it was given) and any `update`s — and never panics.  Output
+lengths `1..=15` are accepted HERE although `crypto_generichash` and `crypto_generichash_init` refuse them. -/
+theorem generichash_final_err_iff (key : Option Bytes) (n : Nat) (salt personal : Option Bytes) (st : State)
+    (hinit : generichashInit key n salt personal = .ok st) (cs : List Bytes) (m : Nat) :
+    (generichashFinal (cs.foldl generichashUpdate st) m = .err ↔ m = 0 ∨ 64 < m) ∧
+    generichashFinal (cs.foldl generichashUpdate st) m ≠ .panic :=
+  Proofs.Blake2b.generichash_final_err_iff key n salt personal st hinit cs m
+
+open DryocVerif.Model.Blake2b in
+/-- non-vacuity, and the point of the finding (kernel-evaluated): `init(None, 64); final(&mut [0u8; 1])` on the empty
+message is `Ok([0x78])` — the first byte of BLAKE2b-512("") — while the RFC 7693 one-byte digest BLAKE2b-8("") is `2e`,
+and `crypto_generichash` with a 1-byte output is `Err` -/
+example : (∃ st, generichashInit none 64 none none = .ok st ∧ generichashFinal st 1 = .ok [0x78]) ∧
+    Spec.Blake2b.hash 1 [] [] = [0x2e] ∧ generichash 1 [] none = .err := by
+  refine ⟨?_, by decide +kernel, by decide⟩
+  obtain ⟨st, hi, hf⟩ := generichash_final_any_len 64 1 [] none none [] (by omega) (by omega) (Or.inl rfl)
+    (by simp) (by simp) (by simp)
+  refine ⟨st, hi, ?_⟩
+  have e : (Proofs.Blake2b.fullState 64 [] [] [] []).take 1 = [0x78] := by decide +kernel
+  simpa [e] using hf
+
+open DryocVerif.Model.Blake2b in
+/-- non-vacuity of `generichash_final_longer` (`n = 16 ≤ m = 64`): `init(None, 16); final(&mut [0u8; 64])` is `Ok` with 64
+bytes that start with the 16-byte digest -/
+example : ∃ st d, generichashInit none 16 none none = .ok st ∧ generichashFinal st 64 = .ok d ∧ d.length = 64 ∧
+    d.take 16 = Spec.Blake2b.hash 16 [] [] := by
+  obtain ⟨st, d, h1, h2, h3, h4⟩ := generichash_final_longer 16 64 [] none none [] (by omega) (by omega)
+    (Or.inl rfl) (by simp) (by simp) (by simp)
+  exact ⟨st, d, h1, h2, h3, h4⟩
+
 /-! ### HMAC-SHA-512-256 (`crypto_auth_init` / `_update` / `_final`)
 
 The incremental SHA-512 context is modelled as the list of bytes fed so far (`sha2`'s block buffering is
@@ -124,4 +209,6 @@ open DryocVerif.Properties.C08
 #print axioms blake2b_chunks_eq_hash
 #print axioms blake2b_updates_eq_update
 #print axioms generichash_inc_eq_oneshot
+#print axioms generichash_final_any_len
+#print axioms generichash_final_err_iff
 end AxiomCheck
